@@ -275,6 +275,83 @@ theorem analysis_frame (P : Prims α) (cfg : RatioCfg α) (hd : DistinctRoles cf
   have e2 : Aggr.count t = Aggr.count t' := ht.count
   rw [e1, e2]
 
+/-- **the same for power analysis**: the three numbers `solve_power_from_aggregates` takes from the
+data — the (adjusted) metric mean, the (adjusted) metric variance and the count — are functions of
+the statistics the metric declared; two `Aggregates` that agree on them (whatever else they
+contain) give the same inputs to `_solve_power_from_stats`, hence the same power / effect size /
+sample size for every entry of the grid -/
+theorem power_inputs_frame (cfg : RatioCfg α) (hd : DistinctRoles cfg) (a a' : Aggr α) (h : AgreeOn cfg a a') :
+    RatioOfMeans.covariate_coef cfg a = RatioOfMeans.covariate_coef cfg a' ∧
+    (∀ coef : α, RatioOfMeans.metric_mean cfg a coef
+        (Aggr.mean a cfg.numer_covariate / Aggr.mean a cfg.denom_covariate)
+      = RatioOfMeans.metric_mean cfg a' coef
+        (Aggr.mean a' cfg.numer_covariate / Aggr.mean a' cfg.denom_covariate)) ∧
+    (∀ coef : α, RatioOfMeans.metric_var cfg a coef = RatioOfMeans.metric_var cfg a' coef) ∧
+    Aggr.count a = Aggr.count a' := by
+  simp only [DistinctRoles, roles, List.pairwise_cons, List.mem_cons, List.mem_nil_iff, or_false,
+    forall_eq_or_imp, forall_eq, List.Pairwise.nil, and_true, IsEmpty.forall_iff, implies_true] at hd
+  obtain ⟨⟨d12, d13, d14⟩, ⟨d23, d24⟩, d34⟩ := hd
+  have m1 : (some cfg.numer) ∈ roles cfg := by simp [roles]
+  have m2 : cfg.denom ∈ roles cfg := by simp [roles]
+  have m3 : cfg.numer_covariate ∈ roles cfg := by simp [roles]
+  have m4 : cfg.denom_covariate ∈ roles cfg := by simp [roles]
+  have k1 := ratio_var_congr a a' _ _ (h.mean _ m1) (h.mean _ m2) (h.var _ m1) (h.var _ m2)
+    (cov_agree h _ _ m1 m2 d12)
+  have k2 := ratio_var_congr a a' _ _ (h.mean _ m3) (h.mean _ m4) (h.var _ m3) (h.var _ m4)
+    (cov_agree h _ _ m3 m4 d34)
+  have k3 : RatioOfMeans.covariate_cov cfg a = RatioOfMeans.covariate_cov cfg a' := by
+    unfold RatioOfMeans.covariate_cov
+    exact ratio_cov_congr a a' _ _ _ _ (h.mean _ m1) (h.mean _ m2) (h.mean _ m3) (h.mean _ m4)
+      (cov_agree h _ _ m1 m3 d13) (cov_agree h _ _ m1 m4 d14) (cov_agree h _ _ m2 m3 d23)
+      (cov_agree h _ _ m2 m4 d24)
+  refine ⟨?_, ?_, ?_, h.count⟩
+  · unfold RatioOfMeans.covariate_coef
+    rw [k2, k3]
+  · intro coef
+    unfold RatioOfMeans.metric_mean
+    simp only [h.mean _ m1, h.mean _ m2, h.mean _ m3, h.mean _ m4]
+  · intro coef
+    unfold RatioOfMeans.metric_var
+    simp only [k1, k2, k3]
+
 end Frame
+
+/-! ## `Experiment.solve_power`: the merged request covers every power metric -/
+
+theorem foldl_power_covers (ms : List (String × PowerKind)) (acc x : AggrCols) (h : Covers acc x) :
+    Covers (ms.foldl (fun acc m => match m.2 with | .aggregated c => acc.or c | _ => acc) acc) x := by
+  induction ms generalizing acc with
+  | nil => exact h
+  | cons m rest ih =>
+    simp only [List.foldl_cons]
+    apply ih
+    cases m.2 with
+    | aggregated c => exact covers_or_of_covers acc c x h
+    | plain => exact h
+    | notPower => exact h
+
+/-- **every statistic a `PowerBaseAggregated` metric declares is in the request that
+`Experiment.solve_power` sends to the backend**, whatever other metrics (aggregated, plain or
+without power analysis) are present and in whatever order -/
+theorem merge_power_superset (ms : List (String × PowerKind)) (m : String × PowerKind) (hm : m ∈ ms)
+    (c : AggrCols) (hc : m.2 = .aggregated c) : Covers (mergedPower ms) c := by
+  unfold mergedPower
+  generalize ({} : AggrCols) = acc
+  induction ms generalizing acc with
+  | nil => simp at hm
+  | cons x rest ih =>
+    simp only [List.foldl_cons]
+    rcases List.mem_cons.mp hm with rfl | hr
+    · apply foldl_power_covers
+      rw [hc]
+      obtain ⟨o1, o2, o3, o4⟩ := or_superset_right acc c
+      exact ⟨o1, o2, o3, o4⟩
+    · exact ih hr _
+
+/-- a metric that takes no part in power analysis adds nothing to the request -/
+theorem mergedPower_skip (ms : List (String × PowerKind)) (n : String) :
+    mergedPower (ms ++ [(n, .notPower)]) = mergedPower ms ∧
+    mergedPower (ms ++ [(n, .plain)]) = mergedPower ms := by
+  simp [mergedPower, List.foldl_append]
 
 end C12
